@@ -21,7 +21,7 @@ func NewRefShard(maxPointSize int) *RefShard {
 
 func (m *RefShard) Clone() *RefShard {
 	c := NewRefShard(m.MaxPointSize)
-	for k, v := range m.Docs {
+	for k, v := range detRange(m.Docs) {
 		c.Docs[k] = cloneDoc(v)
 	}
 	return c
@@ -43,7 +43,7 @@ func cloneAny(v any) any {
 
 func cloneDoc(d Doc) Doc {
 	c := make(Doc, len(d))
-	for k, v := range d {
+	for k, v := range detRange(d) {
 		c[k] = cloneAny(v)
 	}
 	return c
@@ -87,7 +87,7 @@ func (m *RefShard) Update(batch []PointSpec) (updated []uuid.UUID, rejected bool
 			}
 			cur = cloneDoc(stored)
 		}
-		for k, v := range p.Doc.Norm() {
+		for k, v := range detRange(p.Doc.Norm()) {
 			if s, isStr := v.(string); isStr && s == "_delete" {
 				delete(cur, k)
 			} else {
@@ -102,7 +102,7 @@ func (m *RefShard) Update(batch []PointSpec) (updated []uuid.UUID, rejected bool
 		}
 		next[id] = cur
 	}
-	for id, d := range next {
+	for id, d := range detRange(next) {
 		m.Docs[id] = d
 	}
 	return updated, false
@@ -127,7 +127,7 @@ func (m *RefShard) Delete(ids []int) (deleted []uuid.UUID) {
 
 func (m *RefShard) IDs() []uuid.UUID {
 	out := make([]uuid.UUID, 0, len(m.Docs))
-	for k := range m.Docs {
+	for k := range detRange(m.Docs) {
 		out = append(out, k)
 	}
 	sort.Slice(out, func(i, j int) bool { return PIDIndex(out[i]) < PIDIndex(out[j]) })
